@@ -148,6 +148,9 @@ LeafMuts(l, NGrids) ==
       timeShifts == (IF l.it = 0 THEN {[l EXCEPT !.ts = @ + 1]} ELSE {})
       iterShifts == (IF l.ts = 0 THEN {[l EXCEPT !.it = @ + 1]} ELSE {})
       rename == {[l EXCEPT !.name = IF @ = "p" THEN "q" ELSE "p"]}
+      \* the same domains in the opposite order: the values are stacked in the order of the domains, so this is another operator
+      reversed == IF Len(l.a) > 1 /\ l.a # [i \in 1..Len(l.a) |-> l.a[Len(l.a) + 1 - i]]
+                  THEN {[l EXCEPT !.a = [i \in 1..Len(l.a) |-> l.a[Len(l.a) + 1 - i]]]} ELSE {}
   IN
   CASE l.k = "scalar" -> {[l EXCEPT !.m = @ + 1]}
     [] l.k = "dense" -> {[l EXCEPT !.a = SetAt(@, 1, @[1] + 1)], [l EXCEPT !.a = SetAt(@, Len(@), @[Len(@)] + 1)],
@@ -159,11 +162,11 @@ LeafMuts(l, NGrids) ==
     [] l.k = "var" -> rename \cup timeShifts \cup iterShifts
                       \cup {[l EXCEPT !.a = <<(l.a[1] % nsd) + 1>>] : x \in IF l.a[1] <= nsd THEN {1} ELSE {}}       \* another subdomain
                       \cup {[l EXCEPT !.a = <<l.a[1] + nsd>>] : x \in IF l.a[1] <= nsd /\ l.a[1] <= nif THEN {1} ELSE {}}  \* the interface with the same id
-    [] l.k = "mdvar" -> rename \cup timeShifts \cup iterShifts
+    [] l.k = "mdvar" -> rename \cup timeShifts \cup iterShifts \cup reversed
                         \cup (IF Len(l.a) > 1 THEN {[l EXCEPT !.a = SubSeq(@, 1, Len(@) - 1)]} ELSE {})
                         \cup {[l EXCEPT !.a = [i \in 1..Len(l.a) |-> l.a[i] + nsd]] :
                                 x \in IF \A i \in 1..Len(l.a) : l.a[i] <= nsd /\ l.a[i] <= nif THEN {1} ELSE {}}
-    [] l.k = "tdarray" -> rename \cup {[l EXCEPT !.ts = @ + 1]}
+    [] l.k = "tdarray" -> rename \cup {[l EXCEPT !.ts = @ + 1]} \cup reversed
                           \cup {[l EXCEPT !.a = <<(l.a[1] % nsd) + 1>>] : x \in IF Len(l.a) = 1 /\ l.a[1] <= nsd THEN {1} ELSE {}}
                           \cup {[l EXCEPT !.a = <<l.a[1] + nsd>>] : x \in IF Len(l.a) = 1 /\ l.a[1] <= nsd /\ l.a[1] <= nif THEN {1} ELSE {}}
                           \cup {[l EXCEPT !.a = <<l.a[1] + nsd + nif>>] : x \in IF Len(l.a) = 1 /\ l.a[1] <= nsd /\ l.a[1] <= nbg THEN {1} ELSE {}}
